@@ -285,6 +285,12 @@ impl ObjectRef {
     self.header().kind()
   }
 
+  /// Where does the allocation of this object begin
+  #[cfg(feature = "verif")]
+  pub fn verif_address(&self) -> usize {
+    self.ptr.as_ptr() as usize
+  }
+
   #[inline]
   pub fn is_kind(&self, kind: ObjectKind) -> bool {
     self.header().kind() == kind
